@@ -100,12 +100,12 @@ def hp_statement(call):
     return not _missing(v)
 
 
-def decode_with_whatshap(path):
-    """{(chrom, sample, pos): (block_id, phase tuple)} through VcfReader(phases=True)"""
+def decode_with_whatshap(path, only_snvs=False):
+    """{(chrom, sample, pos): (block_id, phase tuple)} through VcfReader(phases=True); only_snvs = the view `--only-snvs` has"""
     from whatshap.vcf import VcfReader
 
     out = {}
-    with VcfReader(path, phases=True) as reader:
+    with VcfReader(path, phases=True, only_snvs=only_snvs) as reader:
         for table in reader:
             for s in reader.samples:
                 for v, p in zip(table.variants, table.phases_of(s)):
@@ -406,6 +406,13 @@ def render_initial(rng, world, prop, knobs):
                     d["ref"], d["alts"] = d["ref"][0], [alt]
                     for s in samples:
                         d["calls"][s] = [rng.choice(["0/1", "1/1", "0/0", "0|1", "1|0"])] + ["."] * (len(d["format"]) - 1)
+                        # an SNV shadowed by an indel at the same position may belong to the phase set of its neighbours
+                        # (it is *the* variant of the position under --only-snvs)
+                        if "PS" in d["format"] and len(src["ref"]) != len(src["alts"][0]) and src["calls"][s][0].count("|") == 1:
+                            psv = src["calls"][s][src["format"].index("PS")]
+                            if psv != ".":
+                                d["calls"][s][0] = rng.choice(["0|1", "1|0"])
+                                d["calls"][s][d["format"].index("PS")] = psv
                     world["records"].append(d)
                     continue
                 for _try in range(20):
@@ -441,6 +448,9 @@ ODD_CALLS = {
     "triploid-partial": ["0/1/.", "./././", "./1/0", "0|.|1", "./././."],
     "tetraploid": ["0/0/1/1", "0|1|0|1", "1/0/1/0", "1|1|0|0", "0/1/1/1", "0|1/0|1", "1/1|0/0"],
     "diploid": ["0/1", "1/0", "0|1", "1|0", "1/1", "0/0", "1|1", "2/1", "2|0"],
+    # numeric boundaries: allele indices beyond 15, ploidies beyond 14 (htslib has no such limits)
+    "manyalleles": ["17/3", "0|19", "16/16", "21|0", "15/16"],
+    "highploidy": ["/".join(["0", "1"] * 8), "|".join(["1", "0"] * 8), "/".join(["0"] * 15), "/".join(["1", "0", "."] * 5)],
 }
 
 
@@ -485,8 +495,14 @@ def render_odd(rng, world, knobs):
             gt = rng.choice(ODD_CALLS[shape])
             if gt.endswith("/"):
                 gt = gt.rstrip("/")
+            if shape == "manyalleles" and len(r["alts"]) < 22:
+                # a site with 22 ALT alleles
+                pool = [a + b for a in "ACGT" for b in "ACGT" if a + b != r["ref"][0] * 2]
+                r["alts"] = [r["alts"][0]] + [r["ref"][0] + x for x in pool[:21]]
             nall = 1 + len(r["alts"])
-            gt = "".join(ch if not ch.isdigit() or int(ch) < nall else str(nall - 1) for ch in gt)
+            import re as _re
+
+            gt = _re.sub(r"\d+", lambda m: m.group(0) if int(m.group(0)) < nall else str(nall - 1), gt)
             vals = [gt]
             ploidy = len(gt.replace("|", "/").split("/"))
             for k in add:
@@ -529,7 +545,8 @@ def gen_store_case(rng, prop, tier):
         shapes = rng.choice([
             ["haploid"], ["haploid", "haploid-missing"], ["triploid"], ["tetraploid"], ["diploid-partial", "diploid"],
             ["diploid-missing", "diploid"], ["triploid-partial", "triploid"], ["diploid"],
-            ["haploid", "diploid", "triploid", "tetraploid"], list(ODD_CALLS),
+            ["haploid", "diploid", "triploid", "tetraploid"], [k for k in ODD_CALLS if k not in ("manyalleles", "highploidy")],
+            ["manyalleles", "diploid"], ["highploidy", "diploid"], list(ODD_CALLS),
         ])
         knobs = {"odd": True, "shapes": shapes, "per_sample": rng.random() < 0.4,
                  "oddtags": rng.choice([None, "values", "values", "header-only"]),
@@ -638,6 +655,8 @@ def gen_store_case(rng, prop, tier):
                   "base": rng.choice(["current", "current", "initial-unphased"])}
             if rng.random() < 0.15:
                 op["debug"] = True
+            if rng.random() < 0.2:
+                op["only_snvs"] = True
             ops.append(op)
     if knobs["many_sets"] and prop == "C09":
         ops.insert(0, {"op": "from_vcf", "source": -1, "tag": rng.choice(["PS", "HP"]), "base": rng.choice(["current", "initial-unphased"])})
@@ -666,6 +685,7 @@ class StoreRun:
         self.snap = {}
         self.nfile = 0
         self.odd = bool(case.get("knobs", {}).get("odd"))
+        self.snv_view = False
 
     def add(self, prop, cls, message, signature):
         self.viol.append((prop, violation(cls, message, signature)))
@@ -854,7 +874,7 @@ class StoreRun:
                     return None
         # R1 + R3 through whatshap's own decoder
         try:
-            dec = decode_with_whatshap(out)
+            dec = decode_with_whatshap(out, only_snvs=only_snvs and getattr(self, "snv_view", False))
         except Exception as e:
             tb = traceback.format_exc()
             site = [l for l in tb.strip().splitlines() if l.strip().startswith("File")][-1].split(", in ")[-1]
@@ -1050,8 +1070,16 @@ class StoreRun:
             return True
         source = self.snap[src]
         tag = op["tag"]
+        only_snvs = bool(op.get("only_snvs"))
+        pos = [(r["chrom"], r["pos"]) for r in self.world["records"]]
+        # With --only-snvs an SNV record that follows an indel at the same position is *the* variant of that position for the
+        # variant file and for the phase-input reader alike. Observation uses the same view (snv_view); the (chrom, sample, pos)
+        # keys of that view do not line up with those of the full view, so such an operation is the last one of its history.
+        self.snv_view = only_snvs and len(pos) != len(set(pos))
+        if only_snvs:
+            self.stats.inc("from_vcf_only_snvs")
         try:
-            srcdec = decode_with_whatshap(source)
+            srcdec = decode_with_whatshap(source, only_snvs=self.snv_view)
         except Exception:
             # the source itself is not decodable (already reported when it was produced, or initial rendering)
             self.stats.inc("skipped_ops")
@@ -1072,19 +1100,27 @@ class StoreRun:
         out = self.newfile("fromvcf_%s" % tag)
         self.last_input = base
         what = "op %d phase_from_vcf(source=state %d,tag=%s,base=%s)" % (i, src, tag, op.get("base", "current"))
-        ok, res = self.guarded(what, lambda: self._phase([source], base, out, tag, extra={"debug_logging": True} if op.get("debug") else None), "C09", "phase-crashed")
+        ok, res = self.guarded(what, lambda: self._phase([source], base, out, tag, only_snvs=only_snvs,
+                                                         extra={"debug_logging": True} if op.get("debug") else None), "C09", "phase-crashed")
         if not ok:
+            self.snv_view = False
             return False
         written, touched = res
         self.stats.inc("op_from_vcf")
-        dec = self.check_phase_output(what, out, tag, written, touched, self.samples, self.chroms, base_model)
+        if self.snv_view:
+            base_model = {}  # keys of the full view say nothing here; every sample and chromosome is a target anyway
+            self.stats.inc("from_vcf_only_snvs_on_duplicate_positions")
+        dec = self.check_phase_output(what, out, tag, written, touched, self.samples, self.chroms, base_model, only_snvs=only_snvs)
         if dec is None:
+            self.snv_view = False
             return False
         # R5: every source set with >= 2 shared heterozygous variants reappears
         in_samples, _, in_recs = raw_records(base)
-        can = writable_calls(in_samples, in_recs)
+        can = writable_calls(in_samples, in_recs, only_snvs)
         by_set = {}
         for k3, (ps, al) in srcdec.items():
+            if ps is None:
+                continue  # phased by '|' with a missing PS value: no phase set to reproduce
             if k3 in can:
                 by_set.setdefault((k3[0], k3[1], ps), []).append((k3[2], al))
         checked = 0
@@ -1104,7 +1140,7 @@ class StoreRun:
                 continue
             for ps, m in sorted(sets.items()):
                 got = [dec.get((c, s, pos)) for pos, _ in m]
-                where = "%s sample %s source set %d (%d variants)" % (c, s, ps, len(m))
+                where = "%s sample %s source set %r (%d variants)" % (c, s, ps, len(m))
                 if any(g is None for g in got):
                     missing = [pos + 1 for (pos, _), g in zip(m, got) if g is None]
                     self.add("C09", "reproduce-lost", "%s: %s: variants at %s are unphased in the output" % (what, where, missing), "reproduce-lost")
@@ -1130,6 +1166,9 @@ class StoreRun:
         self.current = out
         self.snap[i] = out
         self.log.add("from_vcf", [tag, src, len(dec), checked])
+        if self.snv_view:
+            self.snv_view = False
+            return False  # end of this history (see above), not a violation
         return True
 
     def op_unphase(self, i, op):
